@@ -1,7 +1,7 @@
 (* C18 — no input makes the tool fail with an unhandled error.  PARTIAL: theorems cover the
    exception sources the model contains; the rest is exploration (see DESIGN.md section 9 C18). *)
 From WD Require Import Base Wire Conn Color LetterId Matcher MatcherParse Session.
-From WD Require Import TotalityProofs SessionProofs EofCloses.
+From WD Require Import Decode TotalityProofs SessionProofs EofCloses NoRaiseA NoRaiseB.
 From Coq Require Import Permutation.
 Open Scope N_scope.
 
@@ -46,6 +46,29 @@ Theorem C18_all_opened_are_closed : forall P evs d st c u g,
             Permutation o (map (notice (s_color (t_sess T1))) (filter c_open (s_conns (t_sess T1)))).
 Proof. exact run_then_eof_exact. Qed.
 Print Assumptions C18_all_opened_are_closed.
+
+(* the log-line decoder on ARBITRARY text: it succeeds, or raises RuntimeError (the line is passed through), or -
+   exactly when an object id in the line is zero - AssertionError, which the blanket handler around it catches
+   (traceback + error line, decoding switched off, the program goes on reading: O5 in DESIGN.md); never any other
+   class (OutOfModel: text the model does not cover) *)
+Theorem C18_decode_exception_classes : forall l, only msg_class (message l).
+Proof. exact decode_exn_classes. Qed.
+Print Assumptions C18_decode_exception_classes.
+
+Theorem C18_decode_only_runtime_error : forall l, ~ zero_id_line l -> okx (message l).
+Proof. exact decode_only_runtime_error. Qed.
+Print Assumptions C18_decode_only_runtime_error.
+
+Theorem C18_decode_assertion_only_zero_id : forall l m, message l = Raise AssertionError m -> zero_id_line l.
+Proof. exact decode_assertion_only_zero_id. Qed.
+Print Assumptions C18_decode_assertion_only_zero_id.
+
+(* log mode, any start state, any message / text / command / end-of-input events: no exception ever escapes
+   (no ORaise output line) *)
+Theorem C18_log_run_never_raises : forall P evs T,
+  Forall log_event evs -> Forall (Forall noraise) (snd (run P T evs)).
+Proof. exact log_run_never_raises. Qed.
+Print Assumptions C18_log_run_never_raises.
 
 Example C18_ex : is_runtime_error (parse (s2l "(")) = true /\ is_runtime_error (parse (s2l "a.b.c")) = true /\
                  is_runtime_error (parse (s2l "")) = true /\ is_ok (parse (s2l "*")) = true.
